@@ -1,5 +1,6 @@
 import MokapotVerif.Wire
 import MokapotVerif.Model.Tabular
+import MokapotVerif.Model.TabularShared
 /-!
 Driver glue for `Model/Tabular.lean`.  Cells are opaque wire values.
 
@@ -11,6 +12,7 @@ Driver glue for `Model/Tabular.lean`.  Cells are opaque wire values.
            | [mapped rdr [[old new]…]]
            | [joined [rdr…]]
            | [computed rdr name fn]
+           | [computedp rdr name fn]               -- the class as it is since c6f4cd0: accepts cols = none ([computed …]: the class before)
     fn   ::= [const cell] | [affine a b] | [addcol name a]
     cols ::= none | [name…]
     arg  ::= [frame [name…] [row…]] | [dict row] | [dicts [row…]] | [record row]
@@ -93,6 +95,11 @@ partial def rdr? : V → Option (Reader V)
       let n ← toStr? n
       let f ← fn? f
       some (computedReader r n f)
+  | list [atom "computedp", r, n, f] => do
+      let r ← rdr? r
+      let n ← toStr? n
+      let f ← fn? f
+      some (computedReaderP r n f)
   | _ => none
 
 def ofRow (r : Row V) : V := list (r.map (fun p => list [ofStr p.1, p.2]))
